@@ -380,6 +380,33 @@ func (s *Sim) obsLookups(extra []u.Hash) {
 		}
 		if in.mp != nil {
 			emit("obs %s cachedcount %d", in.label, in.mp.CachedLeaves.Length())
+			// the batch look-up of the map forest (0 = not found), in three orders: as listed
+			// (insertion order, then the extra hashes), reversed, and rotated by a third
+			if len(hs) > 96 {
+				hs = hs[len(hs)-96:]
+			}
+			for variant := 0; variant < 3 && len(hs) > 0; variant++ {
+				q := make([]u.Hash, len(hs))
+				switch variant {
+				case 0:
+					copy(q, hs)
+				case 1:
+					for i := range hs {
+						q[len(hs)-1-i] = hs[i]
+					}
+				default:
+					k := len(hs) / 3
+					copy(q, hs[k:])
+					copy(q[len(hs)-k:], hs[:k])
+				}
+				var ps []uint64
+				r := guard(watchdog, func() { ps = in.mp.GetLeafHashPositions(copyHashes(q)) })
+				if r != "ok" {
+					emit("obs %s posbatch %s %s", in.label, hxs(q), r)
+				} else {
+					emit("obs %s posbatch %s %s", in.label, hxs(q), us(ps))
+				}
+			}
 		}
 	}
 }
